@@ -1,10 +1,15 @@
 #!/bin/bash
-# usage: tools_try_seed.sh <seed dir> <check ids...>   (applies the patch to /repo, runs the quick checks, reverts)
+# usage: tools_try_seed.sh <seed dir> <check ids...>
+# Applies the seeded patch in a scratch worktree of /repo (never in /repo itself), runs the quick checks against it
+# through VERIF_REPO, and reverts. Slot (scratch worktree) selectable with SLOT=n for parallel use.
 D=$1; shift
-cd /repo && git apply --check $D/patch.diff || { echo "patch does not apply"; exit 2; }
+SLOT=${SLOT:-0}; WT=/tmp/seedtest_$SLOT
+if [ ! -d $WT ]; then git -C /repo worktree add -q --detach $WT HEAD || exit 2; fi
+cd $WT && git checkout -q --detach $(git -C /repo rev-parse HEAD) && git checkout -q -- . && git clean -fdq crates
+git apply --check $D/patch.diff || { echo "$(basename $D): patch does not apply on current HEAD"; exit 2; }
 git apply $D/patch.diff
 for c in "$@"; do
   B=$(basename $D); LOG=/verif/out/try_${B}_$c.log
-  ( cd /verif && timeout 1500 ./check $c --tier ${TIER:-quick} > $LOG 2>&1; RC=$?; echo "$B $c exit=$RC $(grep -c '^VIOLATION' $LOG) violation-lines; $(grep 'violation detail' $LOG | head -1 | cut -c1-220)" )
+  ( cd /verif && VERIF_REPO=$WT timeout 2400 ./check $c --tier ${TIER:-quick} > $LOG 2>&1; RC=$?; echo "$B $c exit=$RC $(grep -c '^VIOLATION' $LOG) violation-lines; $(grep 'violation detail' $LOG | head -1 | cut -c1-220)" )
 done
-cd /repo && git checkout -- . && git status --short | head -3
+cd $WT && git checkout -q -- . && git clean -fdq crates
